@@ -1185,5 +1185,579 @@ namespace c05
     }
 }  // namespace c05
 
-// C14 and main follow in the second part of the file
-#include "h_motion_c14.inc"
+// =====================================================================================================
+// C14
+// =====================================================================================================
+namespace c14
+{
+    struct Pose
+    {
+        double x, y, th;
+    };
+    static double m2p(double v)  // [0, 2pi)
+    {
+        double r = std::fmod(v, TWO_PI);
+        if (r < 0) r += TWO_PI;
+        if (r >= TWO_PI) r = 0;
+        return r;
+    }
+    static double angDiff(double a, double b) { return std::remainder(a - b, TWO_PI); }
+
+    // ---- independent geometric six-word Dubins solver (unit turning radius) ------------------------------
+    // Words are built from circle centres and tangent lines (not from the Shkel-Lumelsky closed forms the library uses) and every
+    // candidate is certified by integrating it from the start pose: only curves that really reach the goal are admitted.
+    enum Seg
+    {
+        SL,
+        SS,
+        SR
+    };
+    static const Seg WORDS[6][3] = {{SL, SS, SL}, {SR, SS, SR}, {SL, SS, SR}, {SR, SS, SL}, {SR, SL, SR}, {SL, SR, SL}};
+    static const char *WNAME[6] = {"LSL", "RSR", "LSR", "RSL", "RLR", "LRL"};
+
+    static Pose integrate(Pose s, const Seg *w, const double *len)
+    {
+        for (int i = 0; i < 3; ++i)
+        {
+            double v = len[i];
+            switch (w[i])
+            {
+                case SL:
+                    s.x += std::sin(s.th + v) - std::sin(s.th);
+                    s.y += -std::cos(s.th + v) + std::cos(s.th);
+                    s.th += v;
+                    break;
+                case SR:
+                    s.x += -std::sin(s.th - v) + std::sin(s.th);
+                    s.y += std::cos(s.th - v) - std::cos(s.th);
+                    s.th -= v;
+                    break;
+                case SS:
+                    s.x += v * std::cos(s.th);
+                    s.y += v * std::sin(s.th);
+                    break;
+            }
+        }
+        return s;
+    }
+    static double poseErr(const Pose &a, const Pose &b)
+    {
+        return std::hypot(a.x - b.x, a.y - b.y) + std::fabs(angDiff(a.th, b.th));
+    }
+
+    struct RefResult
+    {
+        double exact = 1e300;    // shortest certified (1e-9) word
+        double snapped = 1e300;  // shortest word when arcs within 1e-6 of a full turn count as zero (library resolution)
+        int word = -1;
+        int certified = 0, loose = 0, rejected = 0;
+    };
+
+    static void consider(RefResult &R, const Pose &s, const Pose &g, int word, double t, double p, double q)
+    {
+        if (!(std::isfinite(t) && std::isfinite(p) && std::isfinite(q)) || p < 0) return;
+        // rounding-level snap: an arc of 2pi - 1e-12 is an arc of zero length whose sign was lost in rounding
+        auto tiny = [](double a) { return (TWO_PI - a < 1e-12) ? 0.0 : a; };
+        bool ccc = word >= 4;
+        double L[3] = {tiny(t), ccc ? tiny(p) : p, tiny(q)};
+        double len = L[0] + L[1] + L[2];
+        Pose e = integrate(s, WORDS[word], L);
+        double err = poseErr(e, g);
+        if (err <= 1e-9 * (1 + len))
+        {
+            ++R.certified;
+            if (len < R.exact)
+            {
+                R.exact = len;
+                R.word = word;
+            }
+            if (len < R.snapped) R.snapped = len;
+        }
+        else if (err <= 1e-5 * (1 + len))
+        {
+            // reaches the goal only at the library's declared resolution (e.g. an inner tangent between circles that overlap by
+            // less than 1e-6): not a witness that a shorter exact curve exists, but a length the library may legitimately report
+            ++R.loose;
+            if (len < R.snapped) R.snapped = len;
+        }
+        else
+            ++R.rejected;
+        // declared-resolution snap
+        bool any = false;
+        double S[3] = {L[0], L[1], L[2]};
+        for (int i = 0; i < 3; ++i)
+            if ((i != 1 || ccc) && TWO_PI - S[i] < 1e-6)
+            {
+                S[i] = 0;
+                any = true;
+            }
+        if (any)
+        {
+            double slen = S[0] + S[1] + S[2];
+            Pose e2 = integrate(s, WORDS[word], S);
+            if (poseErr(e2, g) <= 1e-5 * (1 + slen) && slen < R.snapped) R.snapped = slen;
+        }
+    }
+
+    // heading of a unit-speed car at point P of a circle with centre C
+    static double headingOnLeft(double px, double py, double cx, double cy) { return std::atan2(px - cx, -(py - cy)); }
+    static double headingOnRight(double px, double py, double cx, double cy) { return std::atan2(-(px - cx), py - cy); }
+
+    static RefResult refDubins(const Pose &s, const Pose &g)
+    {
+        RefResult R;
+        double lsx = s.x - std::sin(s.th), lsy = s.y + std::cos(s.th), rsx = s.x + std::sin(s.th), rsy = s.y - std::cos(s.th);
+        double lgx = g.x - std::sin(g.th), lgy = g.y + std::cos(g.th), rgx = g.x + std::sin(g.th), rgy = g.y - std::cos(g.th);
+        // LSL
+        {
+            double vx = lgx - lsx, vy = lgy - lsy, D = std::hypot(vx, vy);
+            if (D < 1e-13)
+                consider(R, s, g, 0, m2p(g.th - s.th), 0, 0);
+            else
+            {
+                double phi = std::atan2(vy, vx);
+                consider(R, s, g, 0, m2p(phi - s.th), D, m2p(g.th - phi));
+            }
+        }
+        // RSR
+        {
+            double vx = rgx - rsx, vy = rgy - rsy, D = std::hypot(vx, vy);
+            if (D < 1e-13)
+                consider(R, s, g, 1, m2p(s.th - g.th), 0, 0);
+            else
+            {
+                double phi = std::atan2(vy, vx);
+                consider(R, s, g, 1, m2p(s.th - phi), D, m2p(phi - g.th));
+            }
+        }
+        // LSR: inner tangent from the start's left circle to the goal's right circle
+        {
+            double vx = rgx - lsx, vy = rgy - lsy, D2 = vx * vx + vy * vy;
+            if (D2 >= 4 - 1e-6)
+            {
+                double p = std::sqrt(std::max(D2 - 4, 0.0)), psi = std::atan2(vy, vx) + std::atan2(2.0, p);
+                consider(R, s, g, 2, m2p(psi - s.th), p, m2p(psi - g.th));
+            }
+        }
+        // RSL
+        {
+            double vx = lgx - rsx, vy = lgy - rsy, D2 = vx * vx + vy * vy;
+            if (D2 >= 4 - 1e-6)
+            {
+                double p = std::sqrt(std::max(D2 - 4, 0.0)), psi = std::atan2(vy, vx) - std::atan2(2.0, p);
+                consider(R, s, g, 3, m2p(s.th - psi), p, m2p(g.th - psi));
+            }
+        }
+        // RLR / LRL: middle circle tangent to both, on either side of the centre line
+        for (int word = 4; word <= 5; ++word)
+        {
+            double c0x = word == 4 ? rsx : lsx, c0y = word == 4 ? rsy : lsy, c1x = word == 4 ? rgx : lgx, c1y = word == 4 ? rgy : lgy;
+            double vx = c1x - c0x, vy = c1y - c0y, D = std::hypot(vx, vy);
+            if (D > 4 + 1e-9) continue;
+            double phi = D < 1e-13 ? 0.0 : std::atan2(vy, vx), delta = std::acos(std::min(1.0, D / 4));
+            for (int side = -1; side <= 1; side += 2)
+            {
+                double mx = c0x + 2 * std::cos(phi + side * delta), my = c0y + 2 * std::sin(phi + side * delta);
+                double p1x = (c0x + mx) / 2, p1y = (c0y + my) / 2, p2x = (mx + c1x) / 2, p2y = (my + c1y) / 2;
+                if (word == 4)
+                {
+                    double psi1 = headingOnRight(p1x, p1y, c0x, c0y), psi2 = headingOnRight(p2x, p2y, c1x, c1y);
+                    consider(R, s, g, 4, m2p(s.th - psi1), m2p(psi2 - psi1), m2p(psi2 - g.th));
+                }
+                else
+                {
+                    double psi1 = headingOnLeft(p1x, p1y, c0x, c0y), psi2 = headingOnLeft(p2x, p2y, c1x, c1y);
+                    consider(R, s, g, 5, m2p(psi1 - s.th), m2p(psi1 - psi2), m2p(g.th - psi2));
+                }
+            }
+        }
+        return R;
+    }
+
+    // ---- context -------------------------------------------------------------------------------------------
+    using SE2 = ob::SE2StateSpace::StateType;
+    struct Ctx
+    {
+        Sink &sink;
+        double rho;
+        std::shared_ptr<ob::DubinsStateSpace> D, DS;
+        std::shared_ptr<ob::ReedsSheppStateSpace> RS;
+        SE2 *a, *b, *p, *q;
+        std::string mode;
+    };
+    static Pose poseOf(const SE2 *s) { return {s->getX(), s->getY(), s->getYaw()}; }
+    static void setPose(SE2 *s, const Pose &p)
+    {
+        s->setXY(p.x, p.y);
+        s->setYaw(wrapPi(p.th));
+    }
+    static J witness(Ctx &x, const char *space)
+    {
+        J j;
+        j.str("space", space).num("rho", x.rho).str("mode", x.mode).arr("a", {x.a->getX(), x.a->getY(), x.a->getYaw()})
+            .arr("b", {x.b->getX(), x.b->getY(), x.b->getYaw()});
+        return j;
+    }
+    static RefResult refFor(double rho, const Pose &s, const Pose &g)
+    {
+        Pose s0{0, 0, s.th}, g0{(g.x - s.x) / rho, (g.y - s.y) / rho, g.th};
+        return refDubins(s0, g0);
+    }
+
+    // ---- vehicle-model polyline oracle ------------------------------------------------------------------
+    // which: 0 Dubins, 1 symmetric Dubins, 2 Reeds-Shepp
+    static void polyline(Ctx &x, int which, double LL, int N)
+    {
+        static const char *SPN[] = {"DubinsStateSpace", "DubinsStateSpace", "ReedsSheppStateSpace"};
+        static const char *LBL[] = {"Dubins", "DubinsSymmetric", "ReedsShepp"};
+        const ob::StateSpace *S = which == 0 ? (ob::StateSpace *)x.D.get() : which == 1 ? (ob::StateSpace *)x.DS.get() : (ob::StateSpace *)x.RS.get();
+        Sink &sink = x.sink;
+        const double rho = x.rho, tol = 1e-5 * rho * (1 + LL / rho), tola = 1e-5;
+        const double mag = std::max(std::max(std::fabs(x.a->getX()), std::fabs(x.a->getY())), std::max(std::fabs(x.b->getX()), std::fabs(x.b->getY())));
+        const double tolp = 1e-9 * (1 + mag + LL);
+        const double h = LL / N;
+        const int maxSwitch = which == 2 ? 4 : 2;
+        int nsw = 0, nfwd = 0, nback = 0;
+        long hard = 0;
+        double est = 0, worstHard = 0;
+        int firstHardK = -1;
+        S->interpolate(x.a, x.b, 0.0, x.p);
+        // the curve starts at the start pose
+        if (std::hypot(x.p->getX() - x.a->getX(), x.p->getY() - x.a->getY()) > tol || std::fabs(angDiff(x.p->getYaw(), x.a->getYaw())) > tol / rho)
+            sink.viol(std::string("C14:end-pose:") + SPN[which], witness(x, LBL[which]).str("what", "interpolate(a,b,0) is not a"));
+        SE2 *p = x.p, *q = x.q;
+        for (int k = 1; k <= N; ++k)
+        {
+            // the last sample is the integrated end of the curve (t just below 1), not the copy of b that t = 1 returns: the gap
+            // between the two is the end-pose clause, not a property of the curve's shape
+            S->interpolate(x.a, x.b, k < N ? (double)k / N : std::nextafter(1.0, 0.0), q);
+            double dx = q->getX() - p->getX(), dy = q->getY() - p->getY(), ds = std::hypot(dx, dy);
+            double dth = angDiff(q->getYaw(), p->getYaw()), mid = p->getYaw() + dth / 2;
+            double cross = std::fabs(dx * std::sin(mid) - dy * std::cos(mid)), dot = dx * std::cos(mid) + dy * std::sin(mid);
+            // hard bounds hold on every step, switch samples included
+            double hv = std::max(std::fabs(dth) - (h / rho + tola), (ds - (h + tolp)) / rho);
+            if (hv > 0)
+            {
+                ++hard;
+                worstHard = std::max(worstHard, hv);
+                if (firstHardK < 0) firstHardK = k;
+            }
+            if (dot > tolp) ++nfwd;
+            if (dot < -tolp) ++nback;
+            bool straight = std::fabs(dth) <= tola && std::fabs(ds - h) <= tolp && cross <= tolp;
+            bool arc = std::fabs(std::fabs(dth) - h / rho) <= tola && std::fabs(ds - 2 * rho * std::sin(std::fabs(dth) / 2)) <= tolp &&
+                       cross <= tolp;
+            if (straight || arc)
+                est += (arc && std::fabs(dth) > tola) ? rho * std::fabs(dth) : (straight ? ds : rho * std::fabs(dth));
+            else
+            {
+                ++nsw;
+                est += ds;
+            }
+            std::swap(p, q);
+        }
+        sink.count("c14_polyline_steps", N);
+        sink.count("c14_polylines");
+        sink.count("c14_switch_samples", nsw);
+        std::string base = std::string(":") + SPN[which];
+        if (hard > 0)
+            sink.viol("C14:vehicle-model" + base, witness(x, LBL[which]).str("what", "step exceeds arc length or turning rate").i("steps", N)
+                                                       .i("bad_steps", hard).i("first_bad_step", firstHardK).num("worst_excess", worstHard).num("length", LL));
+        else if (nsw > maxSwitch)
+            sink.viol("C14:vehicle-model" + base, witness(x, LBL[which]).str("what", "too many steps that are neither an arc of the turning radius nor straight")
+                                                       .i("steps", N).i("switch_samples", nsw).i("allowed", maxSwitch).num("length", LL));
+        else if (which == 0 && nback > 0)
+            sink.viol("C14:vehicle-model" + base, witness(x, LBL[which]).str("what", "Dubins curve moves backwards").i("backward_steps", nback));
+        else if (which == 1 && nback > 0 && nfwd > 0)
+            sink.viol("C14:vehicle-model" + base, witness(x, LBL[which]).str("what", "symmetric Dubins curve changes driving direction")
+                                                       .i("backward_steps", nback).i("forward_steps", nfwd));
+        if (which == 1 && nback > 0) sink.count("c14_symmetric_reversed_curves");
+        if (which == 2 && nback > 0 && nfwd > 0) sink.count("c14_rs_curves_with_reversal");
+        // arc length of the sampled curve against the reported distance
+        sink.count("c14_length_checks");
+        if (hard == 0 && nsw <= maxSwitch && (est > LL + tol || est < LL - nsw * h - tol))
+            sink.viol("C14:polyline-length" + base, witness(x, LBL[which]).num("distance", LL).num("curve_length", est).i("steps", N)
+                                                         .i("switch_samples", nsw));
+        // end pose: the copy at t=1 and the integrated curve just before it
+        for (double t : {1.0, std::nextafter(1.0, 0.0)})
+        {
+            S->interpolate(x.a, x.b, t, x.q);
+            double ep = std::hypot(x.q->getX() - x.b->getX(), x.q->getY() - x.b->getY()), ea = std::fabs(angDiff(x.q->getYaw(), x.b->getYaw()));
+            sink.count("c14_end_pose_checks");
+            sink.maxstat("c14_worst_end_error_over_tol", std::max(ep / tol, ea / (tol / rho)));
+            if (ep > tol || ea > tol / rho)
+            {
+                sink.viol("C14:end-pose" + base, witness(x, LBL[which]).num("t", t).num("position_error", ep).num("heading_error", ea).num("tol", tol));
+                break;
+            }
+        }
+    }
+
+    static const char *MODES[] = {"far",          "ccc-region",     "same-position", "collinear",     "quadrant-boundary", "longpath-boundary",
+                                  "straight-ahead", "straight-behind", "random",        "near-coincident", "pure-arc",          "far",
+                                  "random"};
+    static const int NMODES = 13;  // coprime to the usual 16 shards
+
+    static void runCase(Sink &sink, const Args &args, long c)
+    {
+        Rng rng(caseSeed(args, c));
+        double rho = rng.coin(0.2) ? rng.pick(std::vector<double>{0.1, 0.5, 1.0, 2.0, 10.0}) : rng.logUni(0.1, 10);
+        Ctx x{sink, rho, std::make_shared<ob::DubinsStateSpace>(rho), std::make_shared<ob::DubinsStateSpace>(rho, true),
+              std::make_shared<ob::ReedsSheppStateSpace>(rho), nullptr, nullptr, nullptr, nullptr, ""};
+        double B = 40 * rho + 40;
+        ob::RealVectorBounds bd(2);
+        bd.setLow(-B);
+        bd.setHigh(B);
+        x.D->setBounds(bd);
+        x.DS->setBounds(bd);
+        x.RS->setBounds(bd);
+        x.D->setup();
+        x.DS->setup();
+        x.RS->setup();
+        x.a = x.D->allocState()->as<SE2>();
+        x.b = x.D->allocState()->as<SE2>();
+        x.p = x.D->allocState()->as<SE2>();
+        x.q = x.D->allocState()->as<SE2>();
+
+        int mode = (int)(c % NMODES);
+        x.mode = MODES[mode];
+        double W = rng.pick(std::vector<double>{0.0, 1.0, 3.0, 10.0, 20.0}) * (rng.coin() ? 1.0 : rho);
+        W = std::min(W, B / 2);
+        Pose A{rng.uni(-W, W), rng.uni(-W, W), rng.uni(-PI, PI)}, Bp{0, 0, rng.uni(-PI, PI)};
+        static const double QD[] = {0, 0, 1e-9, -1e-9, 1e-6, -1e-6, 1e-3, -1e-3};
+        double dir = rng.uni(-PI, PI), sep = 0;
+        if (rng.coin(0.25)) dir = (PI / 2) * rng.range(-2, 1);
+        switch (mode)
+        {
+            case 0:
+            case 11:
+                sep = rng.uni(4, 12) * rho;
+                break;
+            case 1:
+                sep = rng.uni(0, 4) * rho;
+                break;
+            case 2:
+                sep = 0;
+                break;
+            case 3:
+                sep = rng.coin(0.5) ? rng.uni(0, 4) * rho : rng.uni(4, 12) * rho;
+                A.th = dir + (rng.coin(0.3) ? PI : 0) + (rng.coin(0.3) ? QD[rng.ui(8)] : 0);
+                Bp.th = dir + (rng.coin(0.3) ? PI : 0) + (rng.coin(0.3) ? QD[rng.ui(8)] : 0);
+                break;
+            case 4:
+                sep = rng.coin(0.6) ? rng.uni(4, 12) * rho : rng.uni(0, 4) * rho;
+                A.th = dir + (PI / 2) * rng.range(0, 4) + QD[rng.ui(8)];
+                Bp.th = dir + (PI / 2) * rng.range(0, 4) + QD[rng.ui(8)];
+                break;
+            case 5:
+            {
+                double al = rng.coin(0.3) ? (PI / 2) * rng.range(0, 3) : rng.uni(0, TWO_PI), be = rng.coin(0.3) ? (PI / 2) * rng.range(0, 3) : rng.uni(0, TWO_PI);
+                double d = std::fabs(std::sin(al)) + std::fabs(std::sin(be)) + std::sqrt(std::max(0.0, 4 - std::pow(std::cos(al) + std::cos(be), 2)));
+                sep = std::max(0.0, d + QD[rng.ui(8)]) * rho;
+                A.th = dir + al;
+                Bp.th = dir + be;
+                break;
+            }
+            case 6:
+            case 7:
+                sep = rng.logUni(1e-4, 3) * rho;
+                dir = A.th + (mode == 7 ? PI : 0);
+                Bp.th = A.th;
+                break;
+            case 8:
+            case 12:
+            {
+                double W2 = std::min(B / 2, 6 * rho);
+                Bp.x = rng.uni(-W2, W2) + A.x;
+                Bp.y = rng.uni(-W2, W2) + A.y;
+                break;
+            }
+            case 9:
+                sep = rng.logUni(1e-8, 1e-4) * rho;
+                Bp.th = A.th + (rng.coin() ? 1 : -1) * rng.logUni(1e-8, 1e-4);
+                break;
+            case 10:
+            {
+                // goal on one of the start's turning circles, heading tangent (what prefixes of curves look like)
+                double phi = rng.coin(0.3) ? rng.logUni(1e-4, 1) : rng.uni(0, TWO_PI);
+                int sgn = rng.coin() ? 1 : -1;
+                Bp.th = A.th + sgn * phi;
+                Bp.x = A.x + sgn * rho * (std::sin(A.th + sgn * phi) - std::sin(A.th));
+                Bp.y = A.y - sgn * rho * (std::cos(A.th + sgn * phi) - std::cos(A.th));
+                break;
+            }
+        }
+        if (mode != 8 && mode != 12 && mode != 10)
+        {
+            Bp.x = A.x + sep * std::cos(dir);
+            Bp.y = A.y + sep * std::sin(dir);
+        }
+        setPose(x.a, A);
+        setPose(x.b, Bp);
+        A = poseOf(x.a);
+        Bp = poseOf(x.b);
+
+        sink.count(std::string("c14_mode_") + x.mode);
+        const double eu = std::hypot(Bp.x - A.x, Bp.y - A.y);
+        const bool coincident = eu < 1e-5 * rho && std::fabs(angDiff(A.th, Bp.th)) < 1e-5;
+        const double L = x.D->distance(x.a, x.b), Lr = x.D->distance(x.b, x.a);
+        const double Ls = x.DS->distance(x.a, x.b), Ls2 = x.DS->distance(x.b, x.a);
+        const double R = x.RS->distance(x.a, x.b), R2 = x.RS->distance(x.b, x.a);
+        const double tol = 1e-5 * rho * (1 + L / rho);
+        RefResult ref = refFor(rho, A, Bp), refr = refFor(rho, Bp, A);
+        sink.count("c14_pairs");
+        sink.count("c14_ref_candidates_certified", ref.certified + refr.certified);
+        sink.count("c14_ref_candidates_rejected", ref.rejected + refr.rejected);
+        sink.count("c14_ref_candidates_resolution_only", ref.loose + refr.loose);
+        uint64_t hsh = hmixd(hmixd(hmixd(hmixd(hmixd(hmixd(hmixd(1, rho), A.x), A.y), A.th), Bp.x), Bp.y), Bp.th);
+
+        auto sixWord = [&](double lib, double exact, double snapped, const char *dirn, const char *label) {
+            double t = 1e-5 * rho * (1 + lib / rho);
+            sink.count("c14_six_word_checks");
+            if (exact > 1e299)
+            {
+                sink.inconclusive("c14-no-certified-reference-word");
+                return;
+            }
+            sink.maxstat("c14_worst_six_word_dev_over_tol", std::max(lib - rho * exact, rho * snapped - lib) / t);
+            if (exact - snapped > 1e-9) sink.count("c14_pairs_in_snap_band");
+            if (lib > rho * exact + t || lib < rho * snapped - t)
+                sink.viol("C14:six-word-min:DubinsStateSpace", witness(x, label).str("direction", dirn).num("distance", lib).num("reference", rho * exact)
+                                                                    .num("reference_snapped", rho * snapped).num("tol", t));
+        };
+
+        if (coincident)
+        {
+            sink.count("c14_coincident_pairs");
+            // only required: distance <= tol (the library returns the straight offset), or the honest six-word value
+            if (L > tol) sixWord(L, ref.exact, ref.snapped, "a->b", "Dubins");
+            if (Lr > tol) sixWord(Lr, refr.exact, refr.snapped, "b->a", "Dubins");
+            sink.noteCase(hsh, false);
+        }
+        else
+        {
+            // library word statistics
+            {
+                auto path = x.D->dubins(x.a, x.b);
+                int wi = -1;
+                for (int i = 0; i < 6; ++i)
+                    if (path.type_ == &ob::DubinsStateSpace::dubinsPathType()[i]) wi = i;
+                static const char *LIBW[6] = {"LSL", "RSR", "RSL", "LSR", "RLR", "LRL"};  // order of dubinsPathType()
+                if (wi >= 0) sink.count(std::string("c14_dubins_word_") + LIBW[wi]);
+                double d = eu / rho, th = std::atan2(Bp.y - A.y, Bp.x - A.x), al = m2p(A.th - th), be = m2p(Bp.th - th);
+                bool lp = std::fabs(std::sin(al)) + std::fabs(std::sin(be)) + std::sqrt(std::max(0.0, 4 - std::pow(std::cos(al) + std::cos(be), 2))) - d < 0;
+                sink.count(lp ? "c14_long_path_classified" : "c14_short_path_exhaustive");
+                if (ref.word >= 0 && wi >= 0 && std::string(WNAME[ref.word]) == LIBW[wi]) sink.count("c14_word_agrees_with_reference_stat");
+                auto rp = x.RS->reedsShepp(x.a, x.b);
+                long ti = (rp.type_ - &ob::ReedsSheppStateSpace::reedsSheppPathType[0][0]) / 5;
+                if (ti >= 0 && ti < 18) sink.count("c14_rs_type_" + std::to_string(ti));
+            }
+            sixWord(L, ref.exact, ref.snapped, "a->b", "Dubins");
+            sixWord(Lr, refr.exact, refr.snapped, "b->a", "Dubins");
+            sixWord(Ls, std::min(ref.exact, refr.exact), std::min(ref.snapped, refr.snapped), "min(a->b,b->a)", "DubinsSymmetric");
+            // never below the straight line
+            sink.count("c14_euclid_checks", 3);
+            if (L < eu - tol) sink.viol("C14:below-euclid:DubinsStateSpace", witness(x, "Dubins").num("distance", L).num("euclid", eu));
+            if (Ls < eu - tol) sink.viol("C14:below-euclid:DubinsStateSpace", witness(x, "DubinsSymmetric").num("distance", Ls).num("euclid", eu));
+            if (R < eu - tol) sink.viol("C14:below-euclid:ReedsSheppStateSpace", witness(x, "ReedsShepp").num("distance", R).num("euclid", eu));
+            // symmetry
+            sink.count("c14_symmetry_checks", 2);
+            if (std::fabs(Ls - Ls2) > tol)
+                sink.viol("C14:symmetry:DubinsStateSpace", witness(x, "DubinsSymmetric").num("d_ab", Ls).num("d_ba", Ls2).num("tol", tol));
+            if (std::fabs(R - R2) > tol)
+                sink.viol("C14:symmetry:ReedsSheppStateSpace", witness(x, "ReedsShepp").num("d_ab", R).num("d_ba", R2).num("tol", tol));
+            // Reeds-Shepp never exceeds Dubins in either direction
+            sink.count("c14_rs_le_dubins_checks");
+            bool rsDefect = false;
+            // Where the library's Dubins value lives in the snap band (it is the length of a curve that reaches the goal only at the
+            // declared resolution, below the shortest certified exact curve) the comparison is made with the certified exact length:
+            // the Dubins distance is discontinuous, so the value of a pose 1e-7 away says nothing about this pose.
+            const double dubAB = ref.exact < 1e299 ? std::max(L, rho * ref.exact) : L, dubBA = refr.exact < 1e299 ? std::max(Lr, rho * refr.exact) : Lr;
+            if (R > std::min(L, Lr) + tol && R <= std::min(dubAB, dubBA) + tol) sink.count("c14_rs_above_snapped_dubins_only_stat");
+            if (R > std::min(dubAB, dubBA) + tol)
+            {
+                rsDefect = true;
+                sink.viol("C14:rs-exceeds-dubins:ReedsSheppStateSpace", witness(x, "ReedsShepp").num("reeds_shepp", R).num("dubins_ab", L).num("dubins_ba", Lr)
+                                                                             .num("dubins_ab_certified", dubAB).num("dubins_ba_certified", dubBA)
+                                                                             .num("ratio", R / std::min(dubAB, dubBA)).num("tol", tol));
+            }
+            // curves
+            int N = rng.range(400, 2000);
+            polyline(x, 0, L, N);
+            polyline(x, 1, Ls, N);
+            polyline(x, 2, R, N);
+            // prefix optimality (plain Dubins and Reeds-Shepp; the symmetrised Dubins distance is a minimum of two
+            // non-symmetric lengths and does not have this property by construction)
+            for (int which = 0; which <= 2; which += 2)
+            {
+                if (which == 2 && rsDefect) continue;
+                const ob::StateSpace *S = which == 0 ? (ob::StateSpace *)x.D.get() : (ob::StateSpace *)x.RS.get();
+                double LL = which == 0 ? L : R, tl = 1e-5 * rho * (1 + LL / rho);
+                for (int rep = 0; rep < 3; ++rep)
+                {
+                    double t = rep == 0 ? rng.uni(0, 1) : rep == 1 ? rng.logUni(1e-4, 1) : 1 - rng.logUni(1e-4, 1);
+                    S->interpolate(x.a, x.b, t, x.p);
+                    if (std::hypot(x.p->getX() - A.x, x.p->getY() - A.y) < 1e-5 * rho && std::fabs(angDiff(x.p->getYaw(), A.th)) < 1e-5)
+                    {
+                        sink.count("c14_prefix_points_coincident_with_start_skipped");
+                        continue;
+                    }
+                    double dp = S->distance(x.a, x.p);
+                    sink.count("c14_prefix_checks");
+                    sink.maxstat(which == 0 ? "c14_worst_prefix_dev_over_tol_dubins" : "c14_worst_prefix_dev_over_tol_rs", std::fabs(dp - t * LL) / tl);
+                    if (std::fabs(dp - t * LL) > tl)
+                    {
+                        if (which == 2)
+                        {
+                            double d1 = x.D->distance(x.a, x.p), d2 = x.D->distance(x.p, x.a);
+                            RefResult r1 = refFor(rho, A, poseOf(x.p)), r2 = refFor(rho, poseOf(x.p), A);
+                            if (r1.exact < 1e299) d1 = std::max(d1, rho * r1.exact);
+                            if (r2.exact < 1e299) d2 = std::max(d2, rho * r2.exact);
+                            if (dp > std::min(d1, d2) + tl)
+                            {
+                                // same root cause as the direct clause: the prefix point is a pose Reeds-Shepp over-estimates
+                                sink.viol("C14:rs-exceeds-dubins:ReedsSheppStateSpace",
+                                          witness(x, "ReedsShepp").str("via", "prefix point").num("t", t).arr("p", {x.p->getX(), x.p->getY(), x.p->getYaw()})
+                                              .num("reeds_shepp_a_p", dp).num("dubins_a_p", d1).num("dubins_p_a", d2));
+                                break;
+                            }
+                        }
+                        sink.viol(std::string("C14:prefix:") + (which == 0 ? "DubinsStateSpace" : "ReedsSheppStateSpace"),
+                                  witness(x, which == 0 ? "Dubins" : "ReedsShepp").num("t", t).arr("p", {x.p->getX(), x.p->getY(), x.p->getYaw()})
+                                      .num("d_a_p", dp).num("t_times_d_a_b", t * LL).num("d_a_b", LL).num("tol", tl));
+                        break;
+                    }
+                }
+            }
+            sink.noteCase(hsh, true);
+            sink.sample(J().num("rho", rho).str("mode", x.mode).arr("a", {A.x, A.y, A.th}).arr("b", {Bp.x, Bp.y, Bp.th}).num("dubins", L)
+                            .num("dubins_reference", rho * ref.exact).num("reeds_shepp", R).i("samples_per_curve", N));
+        }
+        for (auto *s : {x.a, x.b, x.p, x.q}) x.D->freeState(s);
+    }
+}  // namespace c14
+
+int main(int argc, char **argv)
+{
+    Args a = parseArgs(argc, argv);
+    ompl::msg::setLogLevel(ompl::msg::LOG_NONE);
+    Sink sink(a);
+    long total;
+    void (*fn)(Sink &, const Args &, long);
+    if (a.prop == "C05") total = a.thorough() ? 40000 : 30000, fn = c05::runCase;
+    else if (a.prop == "C14") total = a.thorough() ? 400000 : 40000, fn = c14::runCase;
+    else
+    {
+        fprintf(stderr, "h_motion does not serve %s\n", a.prop.c_str());
+        return 2;
+    }
+    total = (long)(total * a.scale);
+    for (long c = 0; c < total; ++c)
+    {
+        if (!mine(a, c) || !sink.wanted(c)) continue;
+        sink.begin(c);
+        fn(sink, a, c);
+    }
+    sink.done();
+    return 0;
+}
